@@ -28,6 +28,9 @@ theorem isAllowed_eq (acl : Mw.Acl) (a : Option Mw.Addr) :
     have hsame : ∀ ns, Mw.allowHit ns x = Mw.denyHit ns x := by
       intro ns; rw [← any_allowHit, ← any_denyHit]
     simp only [Fn.isAllowed, Mw.isAllowed, any_denyHit, hsame]
-    cases Mw.denyHit acl.deny x <;> cases h : acl.allow.isEmpty <;> simp [h]
+    -- written so that it closes for every spelling of the same decision (nested ifs, `return any(...)`, early returns)
+    first
+      | done
+      | (cases Mw.denyHit acl.deny x <;> cases h : acl.allow.isEmpty <;> cases hd : Mw.denyHit acl.allow x <;> simp_all)
 
 end NauyacaVerif.Translated
